@@ -239,48 +239,65 @@ func c08Run(c *Ctx) {
 		}
 		c08SetRules(rs, false)
 		reqs := append(append([]string{}, l.Paths...), globs...)
-		for _, req := range reqs {
-			cat := vrt.Make[struct{}]("catLimiter", 4)
-			tail := vrt.Make[struct{}]("tailLimiter", 4)
-			s := NewServerSession("s", "alice", cat, tail)
-			vrt.Go("pump", func() { s.Pump(32 * 1024) })
-			s.H.Write(WireCommand("cat " + req + " regex:noop "))
-			s.Done.Recv("wait")
-			got := map[string]int{}
-			for _, m := range s.Lines() {
-				f := strings.SplitN(m, "|", 6)
-				if len(f) == 6 {
-					got[f[5]]++
+		for ri, req := range reqs {
+			for oi, opt := range []string{"", ":serverless=true", ":plain=true", ":quiet=true:serverless=true:plain=true"} {
+				// options a client may put into the command word select output modes, never permissions
+				if oi > 0 && (ri+len(rs))%3 != 0 {
+					continue // the option variants on a third of the requests
 				}
-			}
-			// expected content: for a path its file if allowed; for a glob every allowed match
-			want := map[string]int{}
-			var targets []string
-			if _, isGlob := l.Globs[req]; isGlob {
-				matches, _ := filepath.Glob(filepath.Clean(req))
-				targets = matches
-			} else {
-				targets = []string{req}
-			}
-			for _, t := range targets {
-				res, known := l.Resolve[t]
-				if !known {
-					// a glob match: resolve it with the layout's table via its cleaned form
-					if ev, err := filepath.EvalSymlinks(t); err == nil {
-						if fi, err := os.Lstat(ev); err == nil && fi.Mode().IsRegular() {
-							res = ev
+				cat := vrt.Make[struct{}]("catLimiter", 4)
+				tail := vrt.Make[struct{}]("tailLimiter", 4)
+				s := NewServerSession("s", "alice", cat, tail)
+				vrt.Go("pump", func() { s.Pump(32 * 1024) })
+				s.H.Write(WireCommand("cat" + opt + " " + req + " regex:noop "))
+				if !s.Wait(2 * time.Minute) {
+					c.Violation("e2e-session-does-not-end", fmt.Sprintf("rules %q, command 'cat%s %s': the session has not ended after two minutes (a read of something that is not a regular file?)", rs, opt, strings.Replace(req, l.Root, "R", 1)), c08Case{rs, false, req + " (options " + opt + ")"})
+					s.H.Shutdown()
+					continue
+				}
+				got := map[string]int{}
+				if strings.Contains(opt, "plain=true") {
+					for _, m := range s.Messages {
+						if m != "" && !strings.HasPrefix(m, ".") && !strings.HasPrefix(m, "SERVER|") {
+							got[m]++
 						}
 					}
 				}
-				if c08Reference(rs, res) {
-					want[l.Content[res]]++
+				for _, m := range s.Lines() {
+					f := strings.SplitN(m, "|", 6)
+					if len(f) == 6 {
+						got[f[5]]++
+					}
 				}
-			}
-			c.Count("e2e|" + fmt.Sprint(rs) + req)
-			vrt.Forget()
-			if fmt.Sprint(got) != fmt.Sprint(want) {
-				sig := "e2e-" + c08Sig(rs, len(got) > len(want), false)
-				c.Violation(sig, fmt.Sprintf("rules %q, command 'cat %s': session delivered %v, the rules allow %v", rs, strings.Replace(req, l.Root, "R", 1), got, want), c08Case{rs, false, req})
+				// expected content: for a path its file if allowed; for a glob every allowed match
+				want := map[string]int{}
+				var targets []string
+				if _, isGlob := l.Globs[req]; isGlob {
+					matches, _ := filepath.Glob(filepath.Clean(req))
+					targets = matches
+				} else {
+					targets = []string{req}
+				}
+				for _, t := range targets {
+					res, known := l.Resolve[t]
+					if !known {
+						// a glob match: resolve it with the layout's table via its cleaned form
+						if ev, err := filepath.EvalSymlinks(t); err == nil {
+							if fi, err := os.Lstat(ev); err == nil && fi.Mode().IsRegular() {
+								res = ev
+							}
+						}
+					}
+					if c08Reference(rs, res) {
+						want[l.Content[res]]++
+					}
+				}
+				c.Count("e2e|" + fmt.Sprint(rs) + req + opt)
+				vrt.Forget()
+				if fmt.Sprint(got) != fmt.Sprint(want) {
+					sig := "e2e-" + c08Sig(rs, len(got) > len(want), false)
+					c.Violation(sig, fmt.Sprintf("rules %q, command 'cat%s %s': session delivered %v, the rules allow %v", rs, opt, strings.Replace(req, l.Root, "R", 1), got, want), c08Case{rs, false, req + " (options " + opt + ")"})
+				}
 			}
 		}
 	})
@@ -294,7 +311,7 @@ func init() {
 		Rule: "a real directory tree (public and secret files, symlinks file->file, dir->dir, chains of two, dangling, loop, from the secret into the public directory, a FIFO, a directory, a device) and 24 requested paths (direct, through every symlink kind, " +
 			"with '..', '.', '//', relative to the working directory, non-existent) + 5 globs; all ordered rule lists of length <=3 (quick) / <=4 (thorough) over 11 rules (allow, '!' deny, bare rules containing ':' via POSIX classes, 'readfiles:' typed, a foreign type), " +
 			"as default rules and as per-user override; oracle A: HasFilePermission == reference (own resolution table of the layout, regular-file test, last matching readfiles rule wins, default deny) in both directions; oracle B (all lists of length <=2/<=3): " +
-			"a cat command through a real server session delivers exactly the content of the allowed files and nothing of the denied ones; non-trivial = the request resolves to a regular file",
+			"a cat command through a real server session (plain, and with the client-settable options serverless/plain/quiet in the command word) delivers exactly the content of the allowed files and nothing of the denied ones; non-trivial = the request resolves to a regular file",
 		Assumptions: []string{
 			"ordinary users only (the scheduled/continuous background users' blanket permission is a documented design decision)",
 			"OS-level ACL check compiled out (default build)",
